@@ -9,6 +9,7 @@ import (
 	"fmt"
 	"hash"
 	"io"
+	"reflect"
 	"runtime/debug"
 	"runtime/metrics"
 	"strings"
@@ -355,4 +356,59 @@ func (s *SpyBlock) Encrypt(dst, src []byte) {
 func (s *SpyBlock) Decrypt(dst, src []byte) {
 	s.Log.add(s.Name, "Decrypt", nil)
 	s.Inner.Decrypt(dst, src)
+}
+
+// PrintAll formats v and every value reachable from it through exported fields, pointers, interfaces, slices and maps with
+// %v and %+v - what logging statements scattered over an application do, one object at a time. String() / Format methods of
+// every type on the way are invoked (fmt itself does not follow pointers below the top level).
+func PrintAll(v any) {
+	seen := map[uintptr]bool{}
+	var walk func(rv reflect.Value, depth int)
+	walk = func(rv reflect.Value, depth int) {
+		if !rv.IsValid() || depth > 8 {
+			return
+		}
+		if rv.CanInterface() {
+			switch rv.Kind() {
+			case reflect.Ptr, reflect.Struct, reflect.Slice, reflect.Map, reflect.Interface:
+				if !(rv.Kind() == reflect.Slice && rv.Type().Elem().Kind() == reflect.Uint8 && rv.Len() > 256) {
+					_ = fmt.Sprintf("%v %+v", rv.Interface(), rv.Interface())
+				}
+			default:
+				if _, ok := rv.Interface().(fmt.Stringer); ok {
+					_ = fmt.Sprintf("%v", rv.Interface())
+				}
+			}
+		}
+		switch rv.Kind() {
+		case reflect.Ptr:
+			if rv.IsNil() || seen[rv.Pointer()] {
+				return
+			}
+			seen[rv.Pointer()] = true
+			walk(rv.Elem(), depth+1)
+		case reflect.Interface:
+			if !rv.IsNil() {
+				walk(rv.Elem(), depth+1)
+			}
+		case reflect.Struct:
+			for i := 0; i < rv.NumField(); i++ {
+				if rv.Type().Field(i).IsExported() {
+					walk(rv.Field(i), depth+1)
+				}
+			}
+		case reflect.Slice:
+			if rv.Type().Elem().Kind() == reflect.Uint8 {
+				return
+			}
+			for i := 0; i < rv.Len() && i < 64; i++ {
+				walk(rv.Index(i), depth+1)
+			}
+		case reflect.Map:
+			for it := rv.MapRange(); it.Next(); {
+				walk(it.Value(), depth+1)
+			}
+		}
+	}
+	walk(reflect.ValueOf(v), 0)
 }
